@@ -347,31 +347,34 @@ def statePass (isCompute : Bool) : St → List (Nat × String × Val) → Except
     | .error e => .error e
     | .ok st' => statePass isCompute st' rest
 
+/-- the stage-combination rule: a compute pipeline has exactly one stage, any other pipeline has no compute stage -/
+def badCombo (isCompute : Bool) (stages : List IrStage) : Bool :=
+  if isCompute then stages.length != 1 else stages.any (fun s => s.stage == Stage.Compute)
+
+/-- unset attachments take the shared blend state; only a graphics pipeline carries state -/
+def finish (name : String) (isCompute : Bool) (stages : List IrStage) (st : St) : IrPipe :=
+  { name := name, group := st.group, stages := stages,
+    state :=
+      if isCompute then none
+      else some { rt := st.rt, depth := st.depth, cull := st.cull, wind := st.wind,
+                  blend := st.atts.map fun o => match o with | some a => a | none => st.shared } }
+
 /-- `parse_pipeline` after the unique-name check: a function of the registry and of this definition only -/
 def elabCore (reg : List FnDecl) (d : PipeDef) : Except Err IrPipe :=
-  let ann := annotate d.props
-  match firstDuplicate [] ann with
+  match firstDuplicate [] (annotate d.props) with
   | some p => .error ⟨.propertyDuplicate, p⟩
   | none =>
-    match entryPass reg ann with
+    match entryPass reg (annotate d.props) with
     | .error e => .error e
     | .ok (stages, remaining) =>
       match stages with
       | [] => .error ⟨.noEntryPoint, 0⟩
       | s0 :: _ =>
-        let isCompute := s0.stage == Stage.Compute
-        let badCombo :=
-          if isCompute then stages.length != 1 else stages.any (fun s => s.stage == Stage.Compute)
-        if badCombo then .error ⟨.invalidStageCombination, 0⟩
+        if badCombo (s0.stage == Stage.Compute) stages then .error ⟨.invalidStageCombination, 0⟩
         else
-          match statePass isCompute initialSt remaining with
+          match statePass (s0.stage == Stage.Compute) initialSt remaining with
           | .error e => .error e
-          | .ok st =>
-            let gs : GState :=
-              { rt := st.rt, depth := st.depth, cull := st.cull, wind := st.wind,
-                blend := st.atts.map fun o => match o with | some a => a | none => st.shared }
-            .ok { name := d.name, group := st.group, stages := stages,
-                  state := if isCompute then none else some gs }
+          | .ok st => .ok (finish d.name (s0.stage == Stage.Compute) stages st)
 
 /-! ## the walk over the file -/
 
